@@ -32,11 +32,11 @@ def plans(ctx):
     if ctx.tier == "quick":
         # re-announcement of live ids, D/T after a verdict, replies (stale tags) after a verdict, junk
         return [R.Plan("qr", "S_q1", emit_mod=100, max_inst=2, max_pw=1, stray=1, junk=True, also=RT(25))]
-    return [R.Plan("qr", "S_q1", emit_mod=12, max_inst=2, max_pw=1, stray=2, junk=True, also=RT(40)),
+    return [R.Plan("qr", "S_q1", emit_mod=50, max_inst=2, max_pw=1, stray=2, junk=True, also=RT(40)),
             R.Plan("qr3", "S_t1d", emit_mod=20, max_inst=3, max_pw=1, stray=1),
             R.Plan("t1c", "S_t1c", emit_mod=12, max_inst=1, max_pw=2),
             R.Plan("two", "S_t1d", emit_mod=40, ids="Ids2", max_inst=1, max_pw=0, pw_on=False),
-            R.Plan("sim", "S_t1a", simulate="num=400", depth=60, workers=8, rich=True, ids="Ids2", max_inst=8,
+            R.Plan("sim", "S_t1a", simulate="num=60", depth=60, workers=8, rich=True, ids="Ids2", max_inst=8,
                    max_pw=3, stray=1, junk=True)]
 
 
